@@ -76,8 +76,16 @@ pub fn analyze(py: &mut crate::py::PyWorker, src: &str, exec: bool) -> Result<Py
     }
     if raw["ok"].as_bool() != Some(true) {
         if let Some(se) = raw.get("syntax_error") {
+            let text = se["text"].as_str().unwrap_or("");
+            const PYKW: &[&str] = &["False", "None", "True", "and", "as", "assert", "async", "await", "break", "class", "continue", "def", "del", "elif", "else", "except", "finally", "for", "from", "global", "if", "import", "in", "is", "lambda", "nonlocal", "not", "or", "pass", "raise", "return", "try", "while", "with", "yield"];
+            let first_word: String = text.trim_start().chars().take_while(|c| c.is_alphanumeric() || *c == '_').collect();
+            let construct = if PYKW.contains(&first_word.as_str()) && text.trim_start()[first_word.len()..].trim_start().starts_with(':') {
+                if text.contains("Literal[") { "py-syntax:keyword-as-tag-attribute" } else { "py-syntax:keyword-as-attribute" }
+            } else {
+                "py-syntax:other"
+            };
             return Err(GrammarError {
-                construct: "module".into(),
+                construct: construct.into(),
                 msg: format!("SyntaxError: {} | {}", se["msg"].as_str().unwrap_or(""), se["text"].as_str().unwrap_or("").trim_end()),
                 line: se["line"].as_u64().unwrap_or(0) as usize,
             });
